@@ -755,16 +755,25 @@ func c11dbShardKeyPrecedence(c *an.Ctx) {
 				base = types.ExprString(sel.X)
 			}
 		}
-		var ifs *ast.IfStmt
-		for p := f.Parent(as); p != nil; p = f.Parent(p) {
-			if i, ok := p.(*ast.IfStmt); ok {
-				ifs = i
-				break
+		// the test that selects the store: the condition of the nearest if, or the expression of the
+		// nearest case of a tagless switch
+		var cond ast.Expr
+		for p := f.Parent(as); p != nil && cond == nil; p = f.Parent(p) {
+			switch x := p.(type) {
+			case *ast.IfStmt:
+				cond = x.Cond
+			case *ast.CaseClause:
+				// only the first case: a later case also carries the negation of the cases before it
+				if sw, ok := f.Parent(f.Parent(x)).(*ast.SwitchStmt); ok && sw.Tag == nil && len(x.List) == 1 && len(sw.Body.List) > 0 && sw.Body.List[0] == ast.Stmt(x) {
+					cond = x.List[0]
+				} else if ok {
+					cond = &ast.BasicLit{Value: "<a later case of a switch>"}
+				}
 			}
 		}
 		okShape := false
-		if ifs != nil && base != "" {
-			if be, ok := ast.Unparen(ifs.Cond).(*ast.BinaryExpr); ok {
+		if cond != nil && base != "" {
+			if be, ok := ast.Unparen(cond).(*ast.BinaryExpr); ok {
 				l, rr := types.ExprString(ast.Unparen(be.X)), types.ExprString(ast.Unparen(be.Y))
 				want := "len(" + base + ".ShardKey.ShardKey)"
 				switch {
@@ -776,11 +785,11 @@ func c11dbShardKeyPrecedence(c *an.Ctx) {
 			}
 		}
 		if !okShape {
-			cond := "<none>"
-			if ifs != nil {
-				cond = types.ExprString(ifs.Cond)
+			condTxt := "<none>"
+			if cond != nil {
+				condTxt = types.ExprString(cond)
 			}
-			r.Fail(an.CallerName(s.Caller)+": database shard key under a different test", c.P.Pos(as.Pos()), "%s takes the database's shard key under `%s`, not under the single test `len(%s.ShardKey.ShardKey) > 0` that every other side uses: rows are placed by one key and queries pruned by another", an.CallerName(s.Caller), cond, base)
+			r.Fail(an.CallerName(s.Caller)+": database shard key under a different test", c.P.Pos(as.Pos()), "%s takes the database's shard key under `%s`, not under the single test `len(%s.ShardKey.ShardKey) > 0` that every other side uses: rows are placed by one key and queries pruned by another", an.CallerName(s.Caller), condTxt, base)
 		}
 	}
 	r.AddSites(n)
